@@ -17,6 +17,8 @@ SOLVENT_CATS = ('storage-label', 'factory-unit', 'storage-compare')
 
 
 def run(ctx):
+    from .configtime import cached_arrays_not_updated_in_place as _cached_arrays
+    _cached_arrays(ctx, 'C05.R1', ('Container.create_solution', 'Container.create_solution_from'))
     model = ctx.model
     from . import unitspec as _us
     _us.api_verified(ctx, 'C05.R1')
